@@ -339,19 +339,22 @@ Serve(t) ==
     /\ Log([a |-> "Serve", t |-> t])
     /\ UNCHANGED <<attr, disk, mem, lock, tmu, tmuQ, cmu, pc, call, wbuf, ncalls, fails, result, delivered, gossiped, rp, reproc, nreproc, n2, rej2>>
 
+\* every id a transaction can get (a constant set, so that TLC reports Sync and Serve as actions of their own)
+AllIds == {"g"} \cup {Id(p, k) : p \in Procs, k \in 1..MaxCalls}
 Next ==
     \/ \E p \in Procs, tpl \in Templates : Begin(p, tpl)
     \/ \E p \in Procs : CheckPrevs(p) \/ ReadHead(p) \/ CalcClock(p) \/ Sign(p) \/ Fail(p) \/ ReadVerify(p)
                          \/ LockWrite(p) \/ Commit(p) \/ Rollback(p) \/ OnRollback(p) \/ AfterCommit(p)
     \/ \E ct \in {TplType(tpl) : tpl \in Templates} : ReprocScan(ct)
     \/ ReprocPublish
-    \/ \E t \in Made : Sync(t) \/ Serve(t)
+    \/ \E t \in AllIds : Sync(t)
+    \/ \E t \in AllIds : Serve(t)
 
 Spec == Init /\ [][Next]_vars
 ProcStep(p) == CheckPrevs(p) \/ ReadHead(p) \/ CalcClock(p) \/ Sign(p) \/ ReadVerify(p) \/ LockWrite(p)
                \/ Commit(p) \/ OnRollback(p) \/ AfterCommit(p) \/ (pc[p] = "fnerr" /\ Rollback(p))
 FairSpec == Spec /\ \A p \in Procs : WF_vars(ProcStep(p))
-                 /\ WF_vars(\E t \in Made : Sync(t)) /\ WF_vars(ReprocPublish)
+                 /\ WF_vars(\E t \in AllIds : Sync(t)) /\ WF_vars(ReprocPublish)
 
 (***************************************************************************)
 (* Properties                                                              *)
